@@ -76,6 +76,9 @@ def check(case: dict, ctx: Ctx) -> None:
     )
     from prosemirror.transform.structure import NodeTypeWithAttrs
 
+    if not schemas.in_domain(case["schema"]):
+        ctx.label("skipped:schema-not-well-founded")
+        return
     lib, rs = schemas.get(case["schema"])
     doc_p = case["doc"]
     assert not V.node_problems(rs, doc_p)
